@@ -28,6 +28,7 @@ type c08Job struct {
 	Base     int      `json:"base"`      // first timeslot (0 = the default colliding base)
 	Slots    []int    `json:"slots"`     // explicit timeslots per reading (wide family); empty = consecutive from Base
 	FixedNow int      `json:"fixed_now"` // server clock stays here (wide family); 0 = the clock follows the readings
+	Revised  []string `json:"revised"`   // per slot: what the meter's row says when the file is read again after the originals were sent ("" = unchanged)
 }
 
 const c08Base = 2099 // timeslot of the first reading: bits 3,4,5 of one bitfield byte, so that a mirrored or shifted bit mapping makes a delivered slot shadow a lost one
@@ -127,6 +128,27 @@ func c08Run(j c08Job) *jobReport {
 		}
 		if uint32(slotOf(i)) > latest {
 			latest = uint32(slotOf(i))
+		}
+	}
+	// the meter rewrites rows it had already written (a half-written row completed, a value corrected): whatever the
+	// file says later, the device has reported the first reading, and that is what every retransmission carries
+	if len(j.Revised) > 0 {
+		content = header
+		for i, r := range j.Readings {
+			if r == "" {
+				continue
+			}
+			if i < len(j.Revised) && j.Revised[i] != "" {
+				r = j.Revised[i]
+			}
+			content += fmt.Sprintf("%d,%s\n", genesis+int64(slotOf(i))*300+7, r)
+		}
+		p.Cli.setEnergy(content)
+		p.phase = "revision"
+		if err := p.Cli.tick(); err != nil {
+			rep.fail("harness/tick", err.Error())
+			poisoned = true
+			return rep
 		}
 	}
 	p.phase = "early"
@@ -349,6 +371,16 @@ func init() {
 				jobs = append(jobs, c08Job{Readings: []string{"5000", v}, Fates: []string{"deliver", "drop"}, Early: early, Between: "restart"})
 			}
 		}
+		// revised rows: after the originals went out the meter's file says something else for a slot (an unparseable
+		// half-written row completed, a number corrected, a number garbled); the original is lost or delivered
+		for _, rv := range [][2]string{{"abc", "5000"}, {"5000", "6000"}, {"10", "5000"}, {"-3000", "abc"}, {"abc", "10"}, {"5000", "10"}} {
+			for _, fate := range []string{"drop", "deliver"} {
+				for _, early := range []string{"none", "ok-drop"} {
+					jobs = append(jobs, c08Job{Readings: []string{rv[0], "5000"}, Revised: []string{rv[1], ""}, Fates: []string{fate, "deliver"}, Early: early, Between: "none"})
+					jobs = append(jobs, c08Job{Readings: []string{"5000", rv[0]}, Revised: []string{"", rv[1]}, Fates: []string{"deliver", fate}, Early: early, Between: "none"})
+				}
+			}
+		}
 		// wide family: the server clock stays at 1000 while the device has readings over the whole acceptance
 		// range, the newest one AHEAD of the server clock; every subset of the older originals is lost
 		for _, newest := range []int{1432, 1100, 1000} {
@@ -367,7 +399,7 @@ func init() {
 			}
 		}
 		run.Assumption("loss, duplication and reordering are decided per datagram by the scripted network; readings fit 32 signed bits (the property's own restriction)")
-		rc := runJobCheck(run, "c08", jobs, "every combination of per-slot reading {none, +5000, -3000, sentinel 2 (, sentinel 3, 70000)} x fate of the original datagram {delivered, dropped, duplicated} x earlier sync round {none, dial fails, malformed reply, ok with all retransmissions dropped, ok delivered} x {nothing, week rotation, server restart} before a final fault-free round on a real client and a real server; afterwards every datagram ever on the wire is re-delivered in reverse order; plus a boundary family (readings -2^31, -2^31+1, 2^31-1, 2^31-2, +-24, -25, 65535, +-65536 lost and retransmitted), plus a wide family (server clock fixed, readings at now-432, now-431, now-400, now-300, now-1 and a newest reading at now / now+100 / now+432, every subset of the older originals lost), plus dense runs of 18 consecutive slots from a bitfield byte boundary with none / each single / each adjacent pair of originals lost; distinct = (fate, early round, in-between event) classes; executions = evaluations")
+		rc := runJobCheck(run, "c08", jobs, "every combination of per-slot reading {none, +5000, -3000, sentinel 2 (, sentinel 3, 70000)} x fate of the original datagram {delivered, dropped, duplicated} x earlier sync round {none, dial fails, malformed reply, ok with all retransmissions dropped, ok delivered} x {nothing, week rotation, server restart} before a final fault-free round on a real client and a real server; afterwards every datagram ever on the wire is re-delivered in reverse order; plus a boundary family (readings -2^31, -2^31+1, 2^31-1, 2^31-2, +-24, -25, 65535, +-65536 lost and retransmitted), plus revised rows (the file says something else for a slot after its original was sent: unparseable->number, number->other number, sentinel->number, number->unparseable), plus a wide family (server clock fixed, readings at now-432, now-431, now-400, now-300, now-1 and a newest reading at now / now+100 / now+432, every subset of the older originals lost), plus dense runs of 18 consecutive slots from a bitfield byte boundary with none / each single / each adjacent pair of originals lost; distinct = (fate, early round, in-between event) classes; executions = evaluations")
 		return rc
 	}
 }
